@@ -1,10 +1,14 @@
 #!/bin/bash
-# tools/runseed.sh <seeded-dir> [tier] [extra vcheck args]: apply a seeded change to /repo, run its property's check, undo.
+# tools/runseed.sh <seeded-dir> [tier] [extra vcheck args]: run the property's check against a seeded change.
+# The change is applied to a scratch worktree of /repo HEAD (removed afterwards) and analysed through VERIF_REPO, so /repo itself
+# is never touched and several seeds can run side by side.  (tools/runseed_inplace.sh does the brief's apply/run/undo on /repo.)
 D="$(readlink -f "$1")"; TIER="${2:-quick}"; shift; shift
 P=$(python3 -c "import json,sys;print(json.load(open('$D/meta.json'))['property'])")
-[ -z "$(git -C /repo status --short)" ] || { echo "/repo not clean"; exit 2; }
-git -C /repo apply "$D/patch.diff" || exit 2
-cd /verif && ./vcheck "$P" --tier "$TIER" "$@"; rc=$?
-git -C /repo checkout -- .
+W=/tmp/wt/seedrun-$(basename "$D")-$$
+mkdir -p /tmp/wt
+git -C /repo worktree add -q --detach "$W" HEAD || exit 2
+trap 'git -C /repo worktree remove --force "$W" 2>/dev/null; rm -rf "$W" "$W.replays"' EXIT
+git -C "$W" apply "$D/patch.diff" || { echo "seed $(basename $D) PATCH-DOES-NOT-APPLY"; exit 2; }
+cd /verif && VERIF_REPO="$W" VERIF_REPLAY_DIR="$W.replays" ./vcheck "$P" --tier "$TIER" "$@"; rc=$?
 echo "seed $(basename $D) property=$P tier=$TIER rc=$rc"
 exit $rc
